@@ -340,6 +340,12 @@ def check_transition(world, cfg, pre, ev, log, exc, newly, post):
             errs.append(({"class": "deleted_without_exceeded_limit", "event": ev[0]},
                          "%s deleted although no configured limit %r was exceeded by the tracked set %s" % (
                              fid, cfg, sorted(os.path.basename(q) for q in full))))
+    # the source of a deletion / move-away event is not tracked afterwards
+    if ev[0] in ("delete_real", "deleted_stale", "move_out", "move_to"):
+        src = fpath(top, ev[1])
+        if src in h.records:
+            errs.append(({"class": "deleted_or_moved_path_still_tracked", "event": ev[0]},
+                         "after %r the path %s is still in the tracked set" % (ev, os.path.basename(src))))
     # protected files must survive
     for p in protected_files(top):
         if not os.path.exists(p):
